@@ -104,6 +104,23 @@ Proof.
   split; [apply resp_no_closing|apply resp_added_cases].
 Qed.
 
+(** Per-frontend response edits (HSTS is the [SetIfAbsent] / [Set] edit of
+    strict-transport-security): fields whose name no edit mentions are untouched, in
+    order; a [SetIfAbsent] edit keeps the backend's own field and adds exactly one
+    otherwise; a [Set] edit leaves exactly its own field of that name. *)
+Theorem response_edits_only_named : forall es hs,
+  filter (fun h => negb (existsb (fun e => named (e_key e) h) es)) (apply_edits es hs) =
+  filter (fun h => negb (existsb (fun e => named (e_key e) h) es)) hs.
+Proof. exact apply_edits_others. Qed.
+
+Theorem hsts_set_if_absent : forall k v hs,
+  apply_edits [mkedit MSetIfAbsent k v] hs = if existsb (named k) hs then hs else hs ++ [(k, v)].
+Proof. exact apply_edits_set_if_absent. Qed.
+
+Theorem hsts_set : forall k v hs,
+  apply_edits [mkedit MSet k v] hs = filter (fun h => negb (named k h)) hs ++ [(k, v)].
+Proof. exact apply_edits_set. Qed.
+
 (** 5. Toward HTTP/2: no connection-specific field crosses, names are lower-case,
     values carry no control byte; what is kept is the input, in order. *)
 Theorem h2_connection_specific_never_cross : forall hs x, In x (h2_filter hs) ->
